@@ -21,6 +21,13 @@ CHECKS = {
     "JsMapKey eq/hash (SameValueZero, eq => equal hash) are executed symbolically from BytecodeVM::execute_op's MIR and shown equal to the "
     "ECMAScript abstract operations written in SMT. No loop, no bound on values. Parser, compiler, strings, objects and the library - "
     "the bulk of the property - are outside the claim.")),
+ 'C03': dict(design='section 3, C03 (compiler-side kernels; the parser is outside)', text=(
+    "Kernel claim, compiler side only. On the real MIR (BytecodeBuilder as events, other Compiler methods abstracted): "
+    "compile_statement_impl on TypeAlias / InterfaceDeclaration returns Ok and emits nothing; compile_expression on TypeAssertion / "
+    "NonNull / Parenthesized makes exactly one call compile_expression(inner, same destination) and emits nothing else; "
+    "collect_import_requests_internal produces a request iff the import / re-export is not type-only. Concrete annotated-vs-erased "
+    "program pairs are a replay route only. The parser's treatment of annotations (speculative parses, generics vs comparisons, "
+    "overloads, modifiers, declare) - most of the property - is not encodable and outside the claim.")),
  'C04': dict(design='section 3, C04 (kernel changed: see DESIGN.md)', text=(
     "Kernel claim: TypeScript's enum auto-increment. Compiler::compile_enum_declaration is executed symbolically (BytecodeBuilder "
     "recorded as events) on two-member enums whose first member is any non-negative finite f64 literal, its negation, or absent: the value "
@@ -128,6 +135,7 @@ CHECKS = {
 }
 
 NA = {
+ 'C12': "determinism and instance isolation are statements about the ABSENCE of shared/ambient state (statics, address-dependent hashing, allocator reuse) across runs, threads and processes; no function's input/output behaviour encodes them, and neither Kani nor the MIR executor has a notion of process restarts or address randomisation (DESIGN.md section 5)",
 }
 
 engines = [
